@@ -1126,7 +1126,9 @@ impl History {
             }
             4 => {
                 if self.actors[a].link.is_none() || !self.model.is_live(self.actors[a].link.unwrap()) && !self.s4.is_pending(self.actors[a].link.unwrap()) {
-                    let clean = if self.rng.chance(1, 5) { Some(self.rng.chance(1, 2)) } else { None };
+                    // alternate the clean flag now and then (a shared subscription in a persistent session is a known-finding trigger)
+                    let may_flip = self.profile.shared_pm == 0 || self.triggers.persistent_shared;
+                    let clean = if may_flip && self.rng.chance(1, 5) { Some(self.rng.chance(1, 2)) } else { None };
                     self.connect(a, clean);
                 }
             }
@@ -1333,14 +1335,44 @@ impl History {
         false
     }
 
+    /// Quiescent-point oracles; liveness records get the router's own view attached so that
+    /// different ways of getting stuck have different signatures
+    fn judge_quiescent(&mut self) {
+        let mut recs = self.model.quiescent();
+        self.corner("quiescent-point");
+        if let Some(snap) = self.s4.snapshot() {
+            for r in recs.iter_mut().filter(|r| r.oracle == "shared-undelivered") {
+                let group = r.facts.get("group").and_then(|v| v.as_str()).unwrap_or("").to_owned();
+                let filter = r.facts.get("filter").and_then(|v| v.as_str()).unwrap_or("").to_owned();
+                let g = snap.groups.iter().find(|g| g.name == group);
+                let log = snap.logs.iter().find(|l| l.filter == filter);
+                let behind = match (g, log) {
+                    (Some(g), Some(l)) => g.cursor < l.next_offset,
+                    _ => false,
+                };
+                let path = format!("$share/{group}/{filter}");
+                // is the request of the member whose turn it is parked as "caught up"?
+                let turn_member = g.and_then(|g| g.members.get(g.turn)).cloned();
+                let turn_conn = turn_member.and_then(|m| snap.connection_map.iter().find(|(c, _)| c == &m).map(|(_, id)| *id));
+                let turn_parked = match (turn_conn, log) {
+                    (Some(id), Some(l)) => l.parked.iter().any(|(c, f)| *c == id && f == &path),
+                    _ => false,
+                };
+                r.facts.insert("group_cursor_behind_log".into(), behind.into());
+                r.facts.insert("turn_member_request_parked".into(), turn_parked.into());
+                r.facts.remove("group");
+                r.facts.remove("filter");
+            }
+        }
+        self.records.extend(recs);
+    }
+
     pub fn finish(&mut self) {
         if self.done() {
             return;
         }
         if self.settle() && !self.done() {
-            let r = self.model.quiescent();
-            self.corner("quiescent-point");
-            self.records.extend(r);
+            self.judge_quiescent();
         }
     }
 
@@ -1377,9 +1409,7 @@ impl History {
             if i % 40 == 39 && self.rng.chance(1, 2) {
                 // an intermediate quiescent point
                 if self.settle() && !self.done() {
-                    let r = self.model.quiescent();
-                    self.corner("quiescent-point");
-                    self.records.extend(r);
+                    self.judge_quiescent();
                 }
             }
         }
